@@ -38,6 +38,18 @@ CHECKS = {
              "instruction k for EVERY k of the fault-free run (complete enumeration per program), followed by a second run on the same VM.",
         note="Fault positions are enumerated completely per sampled program (engine B); programs are sampled. Exact columns of reported "
              "locations are C14's subject and not asserted; CLI process exit status is not asserted."),
+    "C05": dict(
+        level="exploration", design="DESIGN.md §3 C05",
+        technique=TECH + ": per-instruction operand-stack invariant monitor (I1-I6) inside the executor over seeded expression-heavy programs and slice schedules, cross-checked with the reference interpreter",
+        text="Seeded search over expression-heavy programs whose operands are constructs that exit early, break out (1-3 frames, with and "
+             "without value), throw, have an error caught inside them or end in a value-less statement; run unscheduled or as 2-4 scheduled "
+             "scripts with slice lengths 1..7 so context switches fall between any two instructions. A C++ monitor checks after every "
+             "instruction: I1 frame bases monotone and within the stack, I2 nothing left after a statement separator, I3 a left scope "
+             "contributes exactly one value, I4 operands below a scope's base keep their identity on every path out of it, I5 a context's "
+             "stack is untouched while it is not running, I6 loop iterations start at the same height. The marker trace is compared with the "
+             "reference interpreter as an end-to-end cross-check.",
+        note="The monitor reads frames/values through the guarded hooks (incl. on_frame_popped) and never modifies the VM; identity of an "
+             "operand is the identity of its data object."),
     "C12": dict(
         level="exploration", design="DESIGN.md §3 C12",
         technique=TECH + ": seeded slice schedules and virtual clock over the real scheduler loop, rules R1-R7 over the recorded visit/slice/trace history",
